@@ -153,7 +153,7 @@ def generate(rng, tier, cls):
                             'main_encoding': main, 'ops': ops}, r],
                 'schedule': [], 'faults': []}
 
-    spec = gen.gen_foreign(rng, big=rng.chance(0.05))
+    spec = gen.gen_foreign(rng, big=rng.chance(0.05), long_opts=True)
     r = {'id': 'R1', 'kind': 'reader', 'file': 'f1'}
 
     if rng.chance(0.5):
@@ -163,6 +163,8 @@ def generate(rng, tier, cls):
 
     if r['stream'] == 'buffered':
         r['buf'] = rng.choice([1, 3, 64, 8192])
+
+    r.update(gen.gen_stream_extras(rng))
 
     scn = {'actors': [{'id': 'F1', 'kind': 'raw', 'file': 'f1',
                        'foreign': spec}, r],
